@@ -34,6 +34,28 @@ class Flat(nn.Module):
         return x.reshape(x.shape[0], -1)
 
 
+class _Head(nn.Module):
+    def __init__(self):
+        super().__init__()
+        self.fc = nn.Linear(3, 2)
+
+    def forward(self, x):
+        return self.fc(x)
+
+
+class Nested(nn.Module):
+    """Layer names 'fc' and 'head.fc' (one is a suffix of the other)."""
+
+    def __init__(self):
+        super().__init__()
+        self.fc = nn.Linear(3, 3)
+        self.act = nn.Tanh()
+        self.head = _Head()
+
+    def forward(self, x):
+        return self.head(self.act(self.fc(x)))
+
+
 def build_model(name, dtype=torch.float32, seed=0):
     if name == 'mlp3':
         m = nn.Sequential(nn.Linear(3, 4), nn.Tanh(), nn.Linear(4, 2),
@@ -58,6 +80,8 @@ def build_model(name, dtype=torch.float32, seed=0):
         m = nn.Sequential(nn.Linear(3, 3, bias=False), nn.Tanh(),
                           nn.Linear(3, 2), nn.Tanh(),
                           nn.Linear(2, 2, bias=False))
+    elif name == 'nested':
+        m = Nested()
     elif name == 'wide':    # rank-deficient batches, indefinite bf16 factors
         m = nn.Sequential(nn.Linear(12, 10), nn.Tanh(),
                           nn.Linear(10, 8, bias=False))
@@ -79,7 +103,7 @@ def input_shape(name, batch):
         'mlp3': (batch, 3), 'mlp2': (batch, 3), 'lin1': (batch, 3),
         'sq': (batch, 2), 'conv': (batch, 1, 3, 3),
         'convsq': (batch, 2, 2, 3), 'seq3d': (batch, 2, 3),
-        'mixed': (batch, 3), 'wide': (batch, 12), 'nbfirst': (batch, 3),
+        'mixed': (batch, 3), 'wide': (batch, 12), 'nbfirst': (batch, 3), 'nested': (batch, 3),
     }[name]
 
 
@@ -101,6 +125,17 @@ def eligible(model):
                 m, (nn.Linear, nn.Conv2d)) and all(
                 p.requires_grad for p in m.parameters()):
             out.append((n, m))
+    return out
+
+
+def factor_dims(model):
+    """name -> (n_a, n_g, grad numel) from the module shapes."""
+    out = {}
+    for n, m in eligible(model):
+        w = m.weight
+        na = w[0].numel() + (1 if m.bias is not None else 0)
+        ng = w.shape[0]
+        out[n] = (na, ng, ng * na)
     return out
 
 
